@@ -605,7 +605,16 @@ def unrecorded_return(body, w, avoid, rets, lpush, empty_true):
 
 
 # ------------------------------------------------------------------------------------------------
-PUSH_LAST_EXCEPT = {}
+PUSH_LAST_EXCEPT = {
+    # (function, error source) — why the callee cannot fail at that point
+    ("hide_sheet", "? on Model::set_sheet_state"):
+        "set_sheet_state fails only when worksheet_mut(sheet) does; worksheet(sheet)? with the same index precedes the push",
+    ("unhide_sheet", "? on Model::set_sheet_state"):
+        "set_sheet_state fails only when worksheet_mut(sheet) does; worksheet(sheet)? with the same index precedes the push",
+    ("delete_defined_name", "? on Model::delete_defined_name"):
+        "Model::delete_defined_name fails only when the (upper-cased name, scope) lookup fails; get_defined_name_formula(name, scope)? "
+        "performs the identical lookup before the push",
+}
 
 
 def push_last(ck, F):
